@@ -97,10 +97,42 @@ def run_main(tool, argv, stdin_text=""):
     return Outcome(rc, sout.getvalue(), serr.getvalue(), exc)
 
 
-def spawn(tool, argv, stdin_text="", cwd=None, env=None, timeout=120):
-    """Run the tool as a real process (fresh interpreter)."""
+FAKE_CLOCK = """
+import time as _time, datetime as _dt
+_T = %r
+_lt, _gt, _sf, _ct, _at = _time.localtime, _time.gmtime, _time.strftime, _time.ctime, _time.asctime
+_time.time = lambda: _T
+_time.time_ns = lambda: int(_T * 10 ** 9)
+_time.localtime = lambda s=None: _lt(_T if s is None else s)
+_time.gmtime = lambda s=None: _gt(_T if s is None else s)
+_time.strftime = lambda f, t=None: _sf(f, _lt(_T) if t is None else t)
+_time.ctime = lambda s=None: _ct(_T if s is None else s)
+_time.asctime = lambda t=None: _at(_lt(_T) if t is None else t)
+class _Date(_dt.date):
+    @classmethod
+    def today(cls):
+        return cls.fromtimestamp(_T)
+class _DateTime(_dt.datetime):
+    @classmethod
+    def now(cls, tz=None):
+        return cls.fromtimestamp(_T, tz)
+    @classmethod
+    def utcnow(cls):
+        return cls.utcfromtimestamp(_T)
+    @classmethod
+    def today(cls):
+        return cls.fromtimestamp(_T)
+_dt.date, _dt.datetime = _Date, _DateTime
+"""
+
+
+def spawn(tool, argv, stdin_text="", cwd=None, env=None, timeout=120, clock=None):
+    """Run the tool as a real process (fresh interpreter).  clock (seconds since the epoch) pins what the child's time and
+    datetime modules report, from before cnfgen is imported."""
     code = ("import sys; sys.path.insert(0, %r); sys.argv[0] = %r; "
             "from cnfgen.clitools.%s import main; main()" % (REPO, tool, tool))
+    if clock is not None:
+        code = FAKE_CLOCK % (float(clock),) + code
     e = dict(os.environ)
     e.pop("PYTHONPATH", None)
     # bytecode goes to a scratch cache outside the repository (nothing is written into /repo,
